@@ -1942,7 +1942,14 @@ insert_list:
         auto& counter = CURRENT->semaphore_count;
         counter = count;
         DEFER(counter = 0);
+        bool woken = false;
         while (!try_subtract(count)) {
+            if (woken) {
+                // the tokens this waiter was woken for have been taken by someone else;
+                // before queueing again (at the tail) let the other waiters have what is left
+                if (auto cnt = m_count.load()) try_resume(cnt);
+            }
+            woken = true;
             int ret = waitq::wait_defer(timeout, spinlock_unlock, &splock);
             splock.lock();  // assuming errno NOT changed
             if (unlikely(ret < 0)) {    // got interrupted
